@@ -59,9 +59,10 @@ def tap (m : Int) (length : α) (segments : Nat) (left center : Bool) : Option (
   let dMaj : α := Gen.Dec.val r.internalDMaj
   threadedCylinder (dMin dMaj pitch) dMaj pitch length segments 0 0 left center
 
-/-- radius of the chamfer ring of a hex head: √((w/4)² + (w/2)²) -/
+/-- radius of the chamfer ring of a hex head: √((w/4)² + (w/2)²); the literals `0.25`, `0.5` as digits over
+a power of ten, like every decimal literal of the model -/
 def hexChamferRadius (w : α) : α :=
-  sqrt ((lit 1 / lit 4 : α) * w * (lit 1 / lit 4) * w + (lit 1 / lit 2 : α) * w * (lit 1 / lit 2) * w)
+  sqrt ((lit 25 / lit 100 : α) * w * (lit 25 / lit 100) * w + (lit 5 / lit 10 : α) * w * (lit 5 / lit 10) * w)
 
 /-- the un-centred bolt -/
 def hexBoltCore (m : Int) (length headHeight : α) (segments : Nat) (leadIn : α) (chamfered left : Bool) :
